@@ -1,6 +1,8 @@
 (* line protocol (fields separated by '|', strings = decimal code points separated by spaces, "-" = None):
-     D|enc|force|c1;c2;...;last   ->  <one-shot decode of the concatenation> # <incremental decoder fed c1.. (final on last)>
+     D|enc|force|c1;c2;...;last   ->  <one-shot decode of the concatenation> # <result of every incremental call up to the
+                                       first one that raises, separated by " ; "> (final=True on the last chunk)
      E|enc|c1;...;last            ->  same for encode
+     R|enc|force|c1;...;last      ->  as D, for the codec table whose hypotheses are proved in Coq (CodecInstances.r_*)
      S|final|bytes                ->  detectencoding_str        : CRASH | NONE x | SOME cps x
      U|final|text                 ->  detectencoding_unicode
      F|final|enc|text             ->  _fixencoding              : NONE | SOME cps
@@ -18,6 +20,7 @@ let chunks_in x = List.map str_in (String.split_on_char ';' x)
 let rec split_last = function [] -> ([], []) | [x] -> ([], x) | x :: r -> let (a, b) = split_last r in (x :: a, b)
 let err_name = function EUnicode -> "Unicode" | ELookup -> "Lookup" | EValue -> "Value" | EAttr -> "Attr" | EType -> "Type" | EIndex -> "Index"
 let res_out = function Ok o -> "OK " ^ str_out o | Err e -> "ERR " ^ err_name e
+let trace_out tr = String.concat " ; " (List.map res_out tr)
 let det_out (oe, x) = (match oe with None -> "NONE" | Some e -> "SOME " ^ str_out e) ^ (if x then " T" else " F")
 
 let () =
@@ -29,11 +32,15 @@ let () =
         | ["D"; enc; force; cs] ->
           let (chunks, last) = split_last (chunks_in cs) in
           let enc = opt_in enc and force = (force = "1") in
-          res_out (c_decode (List.concat chunks @ last) enc force) ^ " # " ^ res_out (c_dec_feed enc force chunks last)
+          res_out (c_decode (List.concat chunks @ last) enc force) ^ " # " ^ trace_out (c_dec_trace enc force chunks last)
+        | ["R"; enc; force; cs] ->
+          let (chunks, last) = split_last (chunks_in cs) in
+          let enc = opt_in enc and force = (force = "1") in
+          res_out (r_decode (List.concat chunks @ last) enc force) ^ " # " ^ trace_out (r_dec_trace enc force chunks last)
         | ["E"; enc; cs] ->
           let (chunks, last) = split_last (chunks_in cs) in
           let enc = opt_in enc in
-          res_out (c_encode (List.concat chunks @ last) enc) ^ " # " ^ res_out (c_enc_feed enc chunks last)
+          res_out (c_encode (List.concat chunks @ last) enc) ^ " # " ^ trace_out (c_enc_trace enc chunks last)
         | ["S"; fin; b] -> (match detectencoding_str (str_in b) (fin = "1") with None -> "CRASH" | Some r -> det_out r)
         | ["U"; fin; t] -> det_out (detectencoding_unicode (str_in t) (fin = "1"))
         | ["F"; fin; enc; t] -> (match fixencoding (str_in t) (str_in enc) (fin = "1") with None -> "NONE" | Some r -> "SOME " ^ str_out r)
